@@ -78,7 +78,20 @@ fn outv<T: Bytes>(r: Result<T, dryoc::Error>) -> Option<OpenOut> {
     }
 }
 
+thread_local! {
+    /// when set, copying forms size the caller's message buffer to this length instead of the length implied by
+    /// the wire (a caller that knows how long the genuine message is); the second field records that a form used it
+    pub static OUT_LEN: std::cell::Cell<(Option<usize>, bool)> = const { std::cell::Cell::new((None, false)) };
+}
+
 fn sentinel_buf(sentinel: &[u8], n: usize) -> Vec<u8> {
+    let n = OUT_LEN.with(|c| match c.get() {
+        (Some(o), _) => {
+            c.set((Some(o), true));
+            o
+        }
+        _ => n,
+    });
     (0..n).map(|i| sentinel[i % sentinel.len()]).collect()
 }
 
@@ -229,6 +242,55 @@ fn an_open_detached_inplace(w: &Wire, _s: &[u8]) -> Option<OpenOut> {
     let n = b.len();
     out(r, b, pre, true, n)
 }
+// ---- trial decryption: the same buffer is first offered to the in-place form with another key (rejected), then with the
+// ---- right one; libsodium leaves a rejected buffer untouched, so the second attempt must behave like a first one
+fn other(k: &[u8; 32]) -> [u8; 32] {
+    let mut o = *k;
+    o[7] ^= 0x20;
+    o
+}
+fn sb_open_easy_inplace_retry(w: &Wire, _s: &[u8]) -> Option<OpenOut> {
+    let mut b = w.ct.clone();
+    let pre = b.clone();
+    if crypto_secretbox_open_easy_inplace(&mut b, &w.nonce, &other(&w.key)).is_ok() {
+        return None; // the other key also authenticates (harness-level coincidence / the key is what was tampered)
+    }
+    let r = crypto_secretbox_open_easy_inplace(&mut b, &w.nonce, &w.key);
+    let n = b.len().saturating_sub(16);
+    out(r, b, pre, true, n)
+}
+fn bx_open_easy_inplace_retry(w: &Wire, _s: &[u8]) -> Option<OpenOut> {
+    let mut b = w.ct.clone();
+    let pre = b.clone();
+    if crypto_box_open_easy_inplace(&mut b, &w.nonce, &w.pk, &other(&w.sk)).is_ok() {
+        return None;
+    }
+    let r = crypto_box_open_easy_inplace(&mut b, &w.nonce, &w.pk, &w.sk);
+    let n = b.len().saturating_sub(16);
+    out(r, b, pre, true, n)
+}
+fn bx_open_detached_inplace_retry(w: &Wire, _s: &[u8]) -> Option<OpenOut> {
+    let (mac, body) = split16(&w.ct)?;
+    let mut b = body.to_vec();
+    let pre = b.clone();
+    if crypto_box_open_detached_inplace(&mut b, &mac, &w.nonce, &w.pk, &other(&w.sk)).is_ok() {
+        return None;
+    }
+    let r = crypto_box_open_detached_inplace(&mut b, &mac, &w.nonce, &w.pk, &w.sk);
+    let n = b.len();
+    out(r, b, pre, true, n)
+}
+fn an_open_detached_inplace_retry(w: &Wire, _s: &[u8]) -> Option<OpenOut> {
+    let (mac, body) = split16(&w.ct)?;
+    let mut b = body.to_vec();
+    let pre = b.clone();
+    if crypto_box_open_detached_afternm_inplace(&mut b, &mac, &w.nonce, &other(&w.key)).is_ok() {
+        return None;
+    }
+    let r = crypto_box_open_detached_afternm_inplace(&mut b, &mac, &w.nonce, &w.key);
+    let n = b.len();
+    out(r, b, pre, true, n)
+}
 fn an_obj_precalc(w: &Wire, _s: &[u8]) -> Option<OpenOut> {
     let b = match dryoc::dryocbox::VecBox::from_bytes(&w.ct) {
         Ok(b) => b,
@@ -324,6 +386,10 @@ pub fn open_forms() -> Vec<OpenForm> {
         OpenForm { name: "crypto_box_open_detached_afternm", family: Afternm, f: an_open_detached, costly: false },
         OpenForm { name: "crypto_box_open_detached_afternm_inplace", family: Afternm, f: an_open_detached_inplace, costly: false },
         OpenForm { name: "VecBox(box)::from_bytes+precalc_decrypt_to_vec", family: Afternm, f: an_obj_precalc, costly: false },
+        OpenForm { name: "crypto_secretbox_open_easy_inplace(second attempt on the buffer, after a wrong key)", family: Secretbox, f: sb_open_easy_inplace_retry, costly: false },
+        OpenForm { name: "crypto_box_open_easy_inplace(second attempt on the buffer, after a wrong key)", family: Box, f: bx_open_easy_inplace_retry, costly: true },
+        OpenForm { name: "crypto_box_open_detached_inplace(second attempt on the buffer, after a wrong key)", family: Box, f: bx_open_detached_inplace_retry, costly: true },
+        OpenForm { name: "crypto_box_open_detached_afternm_inplace(second attempt on the buffer, after a wrong key)", family: Afternm, f: an_open_detached_inplace_retry, costly: false },
         OpenForm { name: "crypto_box_seal_open", family: Seal, f: sl_open, costly: true },
         OpenForm { name: "VecBox(box)::from_sealed_bytes+unseal_to_vec", family: Seal, f: sl_obj_unseal, costly: true },
         OpenForm { name: "DryocBox<array,array,Vec>::from_parts+unseal", family: Seal, f: sl_obj_unseal_arrays, costly: true },
